@@ -59,6 +59,18 @@ def extract_fgraph(spec):
         opset_req = list(opsets.items())
         imports = []
 
+        def req_graph(g):
+            """per node its own `opset_req` and its body graphs (for Func.reqG), from a real Builder run"""
+            b = _build.Builder(g)
+            b.build_main()
+
+            def one(gg):
+                seq = [a._op for a in b.arguments_of[gg]] + [n for n in b.scope_own[gg] if not isinstance(n, Argument)]
+                return {"nodes": [{"req": sorted([d, v] for d, v in n.opset_req),
+                                   "subs": [one(s_) for s_ in n.subgraphs]} for n in seq]}
+
+            return one(b.main)
+
         def graph_json(g):
             b = _build.Builder(g)
             b.build_main()  # the real stages; only arguments_of / scope_own are read afterwards
@@ -70,7 +82,12 @@ def extract_fgraph(spec):
                     subs = list(n.subgraphs)
                     if isinstance(n, Function):
                         proto = n.to_onnx_function(extra_opset_req=opset_req)
+                        try:
+                            rg = req_graph(n.func_graph)
+                        except Exception as e:  # noqa: BLE001
+                            rg = {"unobservable": f"{type(e).__name__}: {e}"}
                         imports.append({
+                            "rgraph": rg,
                             "key": [proto.domain, proto.name],
                             "body": sorted([d, v] for d, v in n.func_graph._get_build_result().opset_req),
                             "model": sorted([d, v] for d, v in graph._get_opset_req()),
@@ -577,7 +594,26 @@ def run(ck: core.Check):
                 if mism <= 3:
                     ck.broken("correspondence", "C14 function opset imports (max policy)",
                               f"record={rec} model={o}")
-        ck.cov["imports"] = {"distinct_records": len(uniq), "mismatches": mism, "body_req_not_in_model_req": not_sub}
+        # nested requirement collection: Func.reqG over the body's node tree == the body build's opset_req,
+        # and the imports computed from it == the real FunctionProto's
+        withg = [rec for rec in uniq if isinstance(rec.get("rgraph"), dict)]
+        unobs = [rec for rec in withg if "unobservable" in rec["rgraph"]]
+        if unobs:
+            ck.broken("correspondence", "C14 body requirement tree not observable", unobs[0]["rgraph"]["unobservable"][:300])
+        withg = [rec for rec in withg if "unobservable" not in rec["rgraph"]]
+        outs = drv.ask_many("C14", [{"k": "reqs", "g": rec["rgraph"], "model": rec["model"]} for rec in withg])
+        rmism = nested = 0
+        for rec, o in zip(withg, outs):
+            nested += int(any(nd["subs"] for nd in rec["rgraph"]["nodes"]))
+            got_req = sorted(set(map(tuple, o.get("req", [["?", 0]]))))
+            want_req = sorted(set(map(tuple, rec["body"])))
+            if got_req != want_req or sorted(o.get("imports", [])) != rec["real"]:
+                rmism += 1
+                if rmism <= 3:
+                    ck.broken("correspondence", "C14 nested requirement collection / imports of a function body",
+                              f"key={rec['key']} model={json.dumps(o)[:300]} real_req={rec['body']} real_imports={rec['real']}")
+        ck.cov["imports"] = {"distinct_records": len(uniq), "mismatches": mism, "body_req_not_in_model_req": not_sub,
+                             "requirement_trees": len(withg), "with_nested_bodies": nested, "tree_mismatches": rmism}
         # ---- (c) semantics
         sem = [r for r in results if r["mode"] == "sem"]
         outs = drv.ask_many("C14", [{"k": "sem", "prog": r["prog"], "env": r["env"]} for r in sem])
